@@ -676,6 +676,7 @@ func runC01(cases string, res *Result) {
 	c01PoliciesOfTheirOwn(res)
 	c01BodiesThatFailHalfway(res)
 	c01SettingsSwitchedBackAndForth(res)
+	c10ParentsNamedRelatively(cases, res)
 	readCases(cases, func(c Case) {
 		if c.str("k") == "probes" {
 			runC01Probes(c, res, dir)
